@@ -47,7 +47,7 @@ func init() {
 
 	registerSharded("C08", c08Worker, func(tier string) core.Meta {
 		return core.Meta{ID: "C08", Level: "model_checking",
-			Rule:        "same spaces as C01..C04 (ASA, IOS; PAN-OS and NSX when built); every command of every emitted script is executed at its position on the reference device model, which rejects missing referents, deletion of referenced objects, duplicate ACL entries, line/sequence numbers outside the ACL, sub-commands outside their parent's mode and commands after leaving configuration mode; non-trivial = script non-empty",
+			Rule:        "same spaces as C01..C04 (ASA, IOS; PAN-OS and NSX when built) plus the devices with unmanaged content of C07; every command of every emitted script is executed at its position on the reference device model, which rejects missing referents, deletion of referenced objects, duplicate ACL entries, line/sequence numbers outside the ACL, sub-commands outside their parent's mode and commands after leaving configuration mode; non-trivial = script non-empty",
 			Assumptions: []string{"the reference models are at least as strict as the devices in the rules the statement lists"},
 			Bounds:      map[string]any{"quick": "as C01/C02 quick", "thorough": "as C01/C02 thorough"},
 		}
@@ -59,6 +59,10 @@ func c08Worker(ctx *core.Ctx) *core.Result {
 	defer x.sc.Close()
 	x.runSpaces(asaSpaces(ctx))
 	x.runSpaces(iosSpaces(ctx))
+	// devices with unmanaged content (the spaces of C07): no object that
+	// is still referenced from there may be deleted
+	fa, fi := frameSpaceASA("unmanaged", 2), frameSpaceIOS("unmanaged", 2)
+	x.runSpaces([]*space{&fa.space, &fi.space})
 	x.runChain("ASA", ctx)
 	x.runChain("IOS", ctx)
 	for _, f := range c08Extra {
